@@ -36,8 +36,8 @@ out.append(f"\n{n_ok}/{n} as expected.\n")
 
 out.append("## 10. Independently seeded breaking changes (seeded/)\n")
 out.append("Produced by fresh sub-agents that were given only the text of one property and a private git worktree of /repo "
-           "(nothing from /verif); four rounds (a-d), later rounds were also told the earlier seeds' summaries and asked for a different "
-           "mechanism. Each was confirmed by `tools/seed.py verify` on scratch copies: patch applies, the repository's own suite stays green "
+           "(nothing from /verif); six rounds (a-f, 120 changes); rounds b-e were also told the earlier seeds' summaries and asked for a different "
+           "mechanism, round f used the original unbiased prompt again. Each was confirmed by `tools/seed.py verify` on scratch copies: patch applies, the repository's own suite stays green "
            "with the change, the demonstration exits 1 with it and 0 without it; then the property's quick check was run with "
            "`VERIF_REPO=<patched copy>`. 'first run' = verdict of the check as it was when the seed arrived; misses were answered by strengthening "
            "the generator/oracle (never by special-casing the seed), column 'now' is the verdict of the committed check.\n")
@@ -58,6 +58,26 @@ for sid in sorted(os.listdir(base)):
     first += fr == "caught"
     out.append(f"| {sid} | {esc(m['summary'])[:330]} | {esc(m['needs'])[:260]} | {fr} | {now} |")
 out.append(f"\n{tot} seeded changes confirmed; {first} caught on the first run, {caught} caught by the committed checks.\n")
+
+out.append("## 11. Independently produced property-PRESERVING changes (preserving/): false-alarm controls\n")
+out.append("Produced by fresh sub-agents given only the text of one property and a private worktree, asked for realistic maintenance work in the "
+           "anchored code (restructured control flow, renamed/moved private helpers, precompiled regexes, caches in private tables, reworded "
+           "log/abort/exception texts, new optional parameters with behaviour-keeping defaults) that keeps the property for every input. "
+           "`tools/preserve.py verify` confirmed on scratch copies that the repository's suite stays green and that the agent's differential "
+           "demo prints the same digest with and without the change, then ran ALL 20 quick checks with `VERIF_REPO=<patched copy>`; every exit "
+           "code must be 0 (a VIOLATION or an INCONCLUSIVE would both count as an alarm).\n")
+out.append("| change | anchored at | lines (+/-) | what it does | checks run | alarms |")
+out.append("|---|---|---|---|---|---|")
+pbase = os.path.join(HERE, "preserving")
+ptot = palarm = 0
+for pid in sorted(os.listdir(pbase)) if os.path.isdir(pbase) else []:
+    m = json.load(open(os.path.join(pbase, pid, "meta.json")))
+    ns = "; ".join("+%s/-%s %s" % tuple(l.split("\t")) for l in m.get("numstat", "").splitlines())
+    runs = sum(len(t) for t in m.get("checks", {}).values())
+    ptot += 1
+    palarm += bool(m.get("alarms"))
+    out.append(f"| {pid} | {m['property']} | {esc(ns).replace('bibtexparser/', '')} | {esc(m['summary'])[:420]} | {runs} | {', '.join(m.get('alarms') or []) or 'none'} |")
+out.append(f"\n{ptot} preserving changes, {palarm} with an alarm.\n")
 
 text = "\n".join(out)
 dp = os.path.join(HERE, "DESIGN.md")
